@@ -79,6 +79,9 @@ func Options(c *world.Case) (*verify.Options, *world.Getter) {
 			RootCaCrl:    c.Times[world.TRootCaCrl].In(z),
 		},
 	}
+	if c.DefaultTime {
+		o.Now = nil
+	}
 	if !c.Embedded {
 		p := x509.NewCertPool()
 		for _, der := range c.Roots {
